@@ -40,7 +40,7 @@ fn get_str(g: &GlobalDataArc, name: &str) -> String {
 
 /// block [marker a, X, marker z] where X is one element of every kind / error position; conditions and the foreach length are symbolic
 pub fn h_c08_block() {
-    let kind = vnd_conc(vnd_range(0, 12, 1), 12);
+    let kind = vnd_conc(vnd_range(0, 14, 1), 14);
     let c1 = vnd_bool(2);
     let c2 = vnd_bool(3);
     let alen = vnd_conc(vnd_range(0, 3, 4), 3) as usize;
@@ -96,6 +96,8 @@ pub fn h_c08_block() {
         7 => { let mut s = Script::new(); s.content.push(8); fsm.executableContent.insert(8, vec![marker("s", 50)]); x.push(Box::new(s)); }
         10 => { let mut f = ForEach::new(); f.array = src("x", 60); f.item = "it".to_string(); f.content = 6; fsm.executableContent.insert(6, vec![marker("!", 61)]); x.push(Box::new(f)); }
         11 => { let mut e = Expression::new(); e.content = src("x = ", 70); x.push(Box::new(e)); }
+        13 => { let mut f = ForEach::new(); f.array = src("nosuch", 62); f.item = "it".to_string(); f.content = 6; fsm.executableContent.insert(6, vec![marker("!", 63)]); x.push(Box::new(f)); }
+        14 => { let mut c = Cancel::new(); c.send_id_expr = src("nosuch", 90); x.push(Box::new(c)); }
         _ => { let mut a = Assign::new(); a.location = src("x", 80); a.expr = src("nosuch", 81); x.push(Box::new(a)); }
     }
     let mut main: Vec<Box<dyn ExecutableContent>> = vec![marker("a", 1)];
@@ -120,7 +122,7 @@ pub fn h_c08_block() {
         2 | 5 | 7 => { if kind == 7 { want.push_str("s"); } }
         3 | 6 | 11 | 12 => { errors = 1; aborted = true; }
         4 => { raised = 1; }
-        _ => { errors = 1; aborted = true; }      // 10: foreach over a non-collection
+        _ => { errors = 1; aborted = true; }      // 10: foreach over a non-collection, 13: foreach whose array expression fails, 14: cancel whose sendidexpr fails
     }
     if !aborted { want.push_str("z"); }
     let got = get_str(&g, "log");
